@@ -164,5 +164,43 @@ impl<A, D: Dimension> ArrayN<A, D> {
 //@end
 }
 
+// ---- C20 as lemmas over the contracts proved above (reading: unit `deviation`); in exact arithmetic (A-REAL) the order of
+// summation is immaterial, so logically equal arrays give the same real value: on the machine the answers then agree up to the
+// summation roundoff, which is what the property asks of floating-point sums ----------------------------------------------
+pub open spec fn same_logical<A, D: Dimension>(a: &ArrayN<A, D>, b: &ArrayN<A, D>) -> bool { a@ == b@ && a.shape_spec() == b.shape_spec() }
+pub open spec fn same_err(e1: MultiInputError, e2: MultiInputError) -> bool {
+    match (e1, e2) {
+        (MultiInputError::EmptyInput, MultiInputError::EmptyInput) => true,
+        (MultiInputError::ShapeMismatch(s1), MultiInputError::ShapeMismatch(s2)) => s1.first_shape@ == s2.first_shape@ && s1.second_shape@ == s2.second_shape@,
+        _ => false,
+    }
+}
+pub open spec fn same_real<A: Float>(r1: Result<A, MultiInputError>, r2: Result<A, MultiInputError>) -> bool {
+    match (r1, r2) { (Ok(v1), Ok(v2)) => v1.val() == v2.val(), (Err(e1), Err(e2)) => same_err(e1, e2), _ => false }
+}
+proof fn lemma_layout_entropy<A: Float, D: Dimension>(a1: ArrayN<A, D>, a2: ArrayN<A, D>, r1: Result<A, MinMaxError>, r2: Result<A, MinMaxError>)
+    requires
+        same_logical(&a1, &a2),
+        call_ensures(ArrayN::<A, D>::entropy, (&a1,), r1), call_ensures(ArrayN::<A, D>::entropy, (&a2,), r2),
+    ensures
+        r1 is Err ==> r1 == r2, r2 is Err ==> r1 == r2, // [C20]
+        r1 is Ok && r2 is Ok ==> r1->Ok_0.val() == r2->Ok_0.val(), // [C20]
+{
+}
+proof fn lemma_layout_kl_divergence<A: Float, D: Dimension>(a1: ArrayN<A, D>, a2: ArrayN<A, D>, q1: ArrayN<A, D>, q2: ArrayN<A, D>, r1: Result<A, MultiInputError>, r2: Result<A, MultiInputError>)
+    requires
+        same_logical(&a1, &a2), same_logical(&q1, &q2),
+        call_ensures(ArrayN::<A, D>::kl_divergence, (&a1, &q1), r1), call_ensures(ArrayN::<A, D>::kl_divergence, (&a2, &q2), r2),
+    ensures same_real(r1, r2), // [C20]
+{
+}
+proof fn lemma_layout_cross_entropy<A: Float, D: Dimension>(a1: ArrayN<A, D>, a2: ArrayN<A, D>, q1: ArrayN<A, D>, q2: ArrayN<A, D>, r1: Result<A, MultiInputError>, r2: Result<A, MultiInputError>)
+    requires
+        same_logical(&a1, &a2), same_logical(&q1, &q2),
+        call_ensures(ArrayN::<A, D>::cross_entropy, (&a1, &q1), r1), call_ensures(ArrayN::<A, D>::cross_entropy, (&a2, &q2), r2),
+    ensures same_real(r1, r2), // [C20]
+{
+}
+
 } // verus!
 fn main() {}
